@@ -261,8 +261,9 @@ class Matrix(object):
     def __eq__(self, other):
         """
         Test for equality.
+        The rows are compared by their elements: a transposed matrix has tuples as rows, a product has lists.
         """
-        return all([b == x for (b, x) in zip(other.values, self.values)])
+        return all([list(b) == list(x) for (b, x) in zip(other.values, self.values)])
 
     def __sub__(self, other):
         """
